@@ -660,6 +660,27 @@ def calibSetup (a : CalibArgs α) : Except Err (Mdl α × Filt α) :=
 
 end deepen4
 
+/-! ## Deepening round D — the robust loss (`loss_function="lorentzian"`) and `ScaledModel` -/
+
+section deepen5
+variable {α : Type} [RealLike α]
+open RealLike
+
+/-- `lorentzian_loss(p, model, frequencies, powers, num_points_per_block)`:
+    `np.sum(np.log(1 + 0.5 * ((powers - expectation) / gamma) ** 2))`, `gamma = expectation / n**0.5` -/
+def lorentzianLoss (psd : α → α) (n : α) : List α → List α → α
+  | f :: fs, p :: ps =>
+    let e := psd f
+    let gam := e / sqrt n
+    let r := (p - e) / gam
+    log (1.0 + 0.5 * (r * r)) + lorentzianLoss psd n fs ps
+  | _, _ => 0.0
+
+/-- `ScaledModel.scale_params`: `rescaled_params * self._scale_factors` -/
+def scaleParams (scaled scale : List α) : List α := List.zipWith (· * ·) scaled scale
+
+end deepen5
+
 /-! ## Line protocol -/
 
 def optFloat? (s : String) : Option (Option Float) :=
@@ -895,6 +916,29 @@ def handle : List String → Option String
           | .diode => "fitted fitted"
           | .fixed a b => status a ++ " " ++ status b
         some s!"ok {shape} {2 + (flt.fittedParams 2.0).length}"
+    | _ => none
+  | "c11.lloss" :: rest => do
+    -- lorentzian_loss(p, ScaledModel(model, scale), f, P, n)
+    let (o, drag, rest) ← parseOpts? rest
+    let (flt, rest) ← parseFilt? rest
+    match rest with
+    | [fs, ps, n, scaled, scale] =>
+      let fs ← floatList? fs; let ps ← floatList? ps; let n ← nat? n
+      let scaled ← floatList? scaled; let scale ← floatList? scale
+      if fs.length ≠ ps.length || scaled.length ≠ scale.length then none
+      else
+      match scaleParams scaled scale with
+      | fc :: dc :: pars =>
+        match construct o drag with
+        | .error e => some e.name
+        | .ok m =>
+          match flt.validate with
+          | some e => some e.name
+          | none =>
+            match m.psd flt (fs.headD 1.0) fc dc pars with
+            | .error e => some e.name
+            | .ok _ => some ("ok " ++ showFloat (lorentzianLoss (m.psdOr flt fc dc pars (0.0 / 0.0)) (Float.ofNat n) fs ps))
+      | _ => none
     | _ => none
   | _ => none
 
